@@ -456,6 +456,15 @@ func genSession(r *rand.Rand, id int, lvl string) *LSession {
 		stream = append(genGarbage(r, 1+r.Intn(20)), genWire(r, s.Cap, 1+r.Intn(20), false, feat)...)
 		feat["garbage_prefix"] = true
 	}
+	if r.Intn(8) == 0 { // a sysex that is started again before it ended (F0 .. F0 .. F7), somewhere in the stream
+		at := r.Intn(len(stream) + 1)
+		ins := []byte{0xF0, d7(r), d7(r), 0xF0, d7(r), d7(r), d7(r), 0xF7}
+		stream = append(append(append([]byte{}, stream[:at]...), ins...), stream[at:]...)
+		feat["sysex_restarted"] = true
+		if r.Intn(2) == 0 {
+			s.Cap = 0 // the default buffer size
+		}
+	}
 	if s.Prev == nil {
 		s.Prev = []bool{}
 	}
